@@ -124,18 +124,20 @@ func equalLog(a, b *raft.Log) string {
 	case !a.AppendedAt.Equal(b.AppendedAt):
 		return "AppendedAt instant differs"
 	}
-	// reference for the zone: what the standard library's own binary form preserves of it (the documented codec
-	// stores time.Time.MarshalBinary; what that form cannot carry is not the WAL's to keep)
-	ref := a.AppendedAt
+	// The zone: the documented codec stores time.Time.MarshalBinary; what that form cannot carry is not the WAL's to
+	// keep (Go's binary form does not round-trip a negative offset with a seconds part, and applying it twice moves the
+	// offset again). `a` may be an original or an already decoded log, so both its own offset and the offset the
+	// standard library's form makes of it are acceptable.
+	_, ao := a.AppendedAt.Zone()
+	ro := ao
 	if enc, err := a.AppendedAt.MarshalBinary(); err == nil {
 		var rt time.Time
 		if rt.UnmarshalBinary(enc) == nil {
-			ref = rt
+			_, ro = rt.Zone()
 		}
 	}
-	_, ao := ref.Zone()
 	_, bo := b.AppendedAt.Zone()
-	if ao != bo {
+	if bo != ao && bo != ro {
 		return "AppendedAt zone offset differs"
 	}
 	return ""
